@@ -1,1 +1,122 @@
-fn main(){}
+//! `driver exec --cache DIR --scratch DIR --prog FILE --from I --to J --out FILE [--markers]`
+//! executes steps I..J of a program (one JSON line of result per step, appended to --out);
+//! with --markers every step is bracketed by marker system calls the ptrace supervisor
+//! recognises: write(1023, "CVH:BEGIN:<i>") / write(1023, "CVH:END:<i>").
+//!
+//! `driver server` reads `{"cache":..,"scratch":..,"keys":..,"blobs":..,"step":..,"dest_n":..}`
+//! lines on stdin and answers one result line each (used for the tokio executor of C12).
+use cvh::exec::{run_step, Ctx};
+use cvh::ops::{Program, Step};
+use std::io::{BufRead, Write};
+use std::path::PathBuf;
+
+fn marker(s: &str) {
+    unsafe {
+        libc::write(1023, s.as_ptr() as *const libc::c_void, s.len());
+    }
+}
+
+fn main() {
+    cvh::exec::install_panic_hook();
+    cvh::exec::mark_worker_thread();
+    let argv: Vec<String> = std::env::args().collect();
+    if argv.len() < 2 {
+        eprintln!("usage: driver exec|server ...");
+        std::process::exit(2);
+    }
+    match argv[1].as_str() {
+        "exec" => exec(&argv[2..]),
+        "server" => server(),
+        _ => std::process::exit(2),
+    }
+}
+
+fn exec(a: &[String]) {
+    let mut cache = PathBuf::new();
+    let mut scratch = PathBuf::new();
+    let mut prog = PathBuf::new();
+    let mut out = PathBuf::new();
+    let (mut from, mut to) = (0usize, usize::MAX);
+    let mut markers = false;
+    let mut i = 0;
+    while i < a.len() {
+        match a[i].as_str() {
+            "--cache" => cache = PathBuf::from(&a[i + 1]),
+            "--scratch" => scratch = PathBuf::from(&a[i + 1]),
+            "--prog" => prog = PathBuf::from(&a[i + 1]),
+            "--out" => out = PathBuf::from(&a[i + 1]),
+            "--from" => from = a[i + 1].parse().unwrap(),
+            "--to" => to = a[i + 1].parse().unwrap(),
+            "--markers" => {
+                markers = true;
+                i += 1;
+                continue;
+            }
+            x => {
+                eprintln!("driver: unknown argument {x}");
+                std::process::exit(2);
+            }
+        }
+        i += 2;
+    }
+    let p: Program = serde_json::from_str(&std::fs::read_to_string(&prog).expect("read program")).expect("decode program");
+    let ctx = Ctx::new(cache, scratch, &p.keys, &p.blobs);
+    ctx.dest_n.set(from * 1000);
+    // materialise blobs before any window opens so that lazily generating them is not
+    // part of an operation
+    for s in &p.steps {
+        if let Some(b) = step_blob(s) {
+            let _ = ctx.blob(b);
+        }
+    }
+    let mut outf = std::fs::OpenOptions::new().create(true).append(true).open(&out).expect("open out");
+    let to = to.min(p.steps.len());
+    for i in from..to {
+        if markers && !p.steps[i].op.is_harness_side() {
+            marker(&format!("CVH:BEGIN:{i}"));
+        }
+        let r = run_step(&ctx, &p.steps[i]);
+        if markers && !p.steps[i].op.is_harness_side() {
+            marker(&format!("CVH:END:{i}"));
+        }
+        let line = serde_json::json!({"i": i, "out": r.out, "t0": r.t0.to_string(), "t1": r.t1.to_string()});
+        let mut text = line.to_string();
+        text.push('\n');
+        outf.write_all(text.as_bytes()).expect("write out");
+    }
+}
+
+fn step_blob(s: &Step) -> Option<usize> {
+    use cvh::ops::Op;
+    match &s.op {
+        Op::Write(w) | Op::Abandon { spec: w, .. } => Some(w.blob),
+        Op::LinkTo(l) => Some(l.blob),
+        _ => None,
+    }
+}
+
+fn server() {
+    let stdin = std::io::stdin();
+    let mut stdout = std::io::stdout();
+    for line in stdin.lock().lines() {
+        let line = match line {
+            Ok(l) => l,
+            Err(_) => break,
+        };
+        if line.trim().is_empty() {
+            continue;
+        }
+        let v: serde_json::Value = serde_json::from_str(&line).expect("request");
+        let keys: Vec<String> = serde_json::from_value(v["keys"].clone()).unwrap();
+        let blobs: Vec<cvh::blob::Blob> = serde_json::from_value(v["blobs"].clone()).unwrap();
+        let step: Step = serde_json::from_value(v["step"].clone()).unwrap();
+        let ctx = Ctx::new(PathBuf::from(v["cache"].as_str().unwrap()), PathBuf::from(v["scratch"].as_str().unwrap()), &keys, &blobs);
+        ctx.dest_n.set(v["dest_n"].as_u64().unwrap_or(0) as usize);
+        let r = run_step(&ctx, &step);
+        let resp = serde_json::json!({"out": r.out, "t0": r.t0.to_string(), "t1": r.t1.to_string()});
+        let mut text = resp.to_string();
+        text.push('\n');
+        stdout.write_all(text.as_bytes()).unwrap();
+        stdout.flush().unwrap();
+    }
+}
